@@ -288,3 +288,35 @@ theorem json_inspect_type_noPanic (name : Bytes) (hn : name ∈ [JsonF.bn "json"
 example : (applyFilter (lookupImpl JsonF.impls) (JsonF.bn "json") (.slice .any [.flt .f64 (3/2), .str [60]]) []).isOk = true := by
   decide +kernel
 example : (applyFilter (lookupImpl JsonF.impls) (JsonF.bn "type") .nil []).isOk = true := by decide +kernel
+
+/-- **The filter `date` never panics** (`Liquid/Filters/Date.lean`): for every receiver (a time, a date
+    string, nil, anything else) and every argument list, `x | date: …` evaluated through `ApplyFilter` +
+    `values.Call` ends in a text, an error (a receiver that is no time, too many arguments, a format that
+    does not convert) or the explicit `unmodelled` marker — the model of `tuesday.Strftime` (regexp,
+    conversions, flags, widths), of the calendar and of `ParseDate` has no reachable panic site
+    (`dateImpls_noPanic`, a component of `std_noPanic` and hence of `run_std_noPanic`). -/
+theorem date_noPanic (recv : GoVal) (args : List GoVal) :
+    ∀ w, applyFilter (lookupImpl DateF.impls) [100, 97, 116, 101] recv args ≠ .panic w ∧
+      stdPrims.applyFilter [100, 97, 116, 101] recv args ≠ .panic w := by
+  intro w
+  have h1 := applyFilter_noPanic dateImpls_noPanic [100, 97, 116, 101] recv args
+  have h2 := std_noPanic.applyFilter [100, 97, 116, 101] recv args
+  constructor
+  · intro h; rw [h] at h1; exact h1
+  · intro h; rw [h] at h2; exact h2
+
+-- the theorem is about calls that reach the body: `"2020-01-02" | date: "%s"` prints the unix time
+example : (match applyFilter (lookupImpl DateF.impls) [100, 97, 116, 101] (.str [50, 48, 50, 48, 45, 48, 49, 45, 48, 50]) [.str [37, 115]] with
+    | .ok (.str s) => s == [49, 53, 55, 55, 57, 50, 51, 50, 48, 48]
+    | _ => false) = true := by decide +kernel
+
+/-- **every registered filter has a modelled body**: the table `stdFilterImpls` the no-panic theorem
+    covers has an entry for each of the 48 names of the registry `stdFilters` (= the table translator T2
+    extracts from `filters.AddStandardFilters`, `filter_sigs_are_standard`), so `applyFilter` never answers
+    "filter body not modelled". -/
+theorem every_registered_filter_modelled :
+    stdFilters.length = 48 ∧ ∀ sg ∈ stdFilters, (lookupImpl stdFilterImpls sg.name).isSome = true := by
+  constructor
+  · decide +kernel
+  · have h : stdFilters.all (fun sg => (lookupImpl stdFilterImpls sg.name).isSome) = true := by decide +kernel
+    exact fun sg hsg => List.all_eq_true.mp h sg hsg
